@@ -122,6 +122,13 @@ def compile_clause(text):
     return compile(tree, "<clause>", "eval")
 
 
+def _clip1(z):
+    z = float(z)
+    if 1.0 < abs(z) <= 1.0 + 1e-9:
+        return math.copysign(1.0, z)
+    return z
+
+
 def base_namespace():
     def forall(*a, **kw):
         *b, f = a
@@ -138,7 +145,7 @@ def base_namespace():
         "forall": forall, "exists": exists, "implies": lambda a, b: (not a) or bool(b),
         "iff": lambda a, b: bool(a) == bool(b), "ite": lambda c, a, b: a if c else b,
         "eqr": lambda a, b: _cmp("==", a, b), "ler": lambda a, b: _cmp("<=", a, b), "ltr": lambda a, b: _cmp("<", a, b),
-        "isnone": lambda a: a is None, "sin": math.sin, "cos": math.cos, "asin": math.asin, "acos": math.acos,
+        "isnone": lambda a: a is None, "sin": math.sin, "cos": math.cos, "asin": lambda z: math.asin(_clip1(z)), "acos": lambda z: math.acos(_clip1(z)),
         "atan2": math.atan2, "sqrt": math.sqrt, "deg2rad": math.radians, "rad2deg": math.degrees, "abs": abs, "min": min, "max": max, "len": len,
         "fmod": lambda a, b: float(np.mod(a, b)), "pi": math.pi, "FILL": FILL, "INT_MAX": 2 ** 63 - 1, "INT_MIN": FILL,
         "shape": lambda a: tuple(np.shape(a)), "__cmp": _cmp, "np": np,
